@@ -60,7 +60,7 @@ def register(R):
         _done_callbacks=ListOfT(ExtT('task_done_callback'), name='task_done_callbacks'),
         _is_final=Bool,
     )
-    R.add_fields(f'{F}:TransferFuture', _meta=ExtT('meta'), _coordinator=ObjT(TC, shared=True))
+    R.add_fields(f'{F}:TransferFuture', _coordinator=ObjT(TC, shared=True))
 
     # start_as_current_context(ctx): botocore context propagation, no effect on the transfer
     R.builtin_models['botocore.context.start_as_current_context'] = \
